@@ -179,6 +179,9 @@ def _use_by_evaluation(ctx, ck, inv, mv_node) -> bool:
         if throw is not stubs['solver_throw']:
             problems.append(f'{what}: the solve receives throw={"lineax\'s default" if throw is _MISSING19 else repr(throw)} instead of the captured solver_throw')
         opts = kw.get('options')
+        if opts is UNK or (opts is not None and not isinstance(opts, dict)):
+            ck.note(f'K7: {what}: the options handed to the solve could not be followed: not decided by evaluation')
+            return False
         if not isinstance(opts, dict):
             problems.append(f'{what}: the solve does not receive the captured options')
         else:
